@@ -2,7 +2,7 @@
 
 E1: ALL frames of <= 3 rows (repeats allowed, so duplicates arise naturally) over the 32-row alphabet
 {a,b} x dt{-1,0} x height{NaN,100} x type{-1,0,1,2}, each fed to the real check_data_consistency (and,
-for <= 2 rows, to CeiloChunk); layout variants (each column dropped, extra columns - also ones that
+for <= 2 rows, to CeiloChunk); layout variants (each column dropped / renamed / replaced by a foreign column of the same dtype, extra columns - also ones that
 differ between otherwise identical rows -, dtype variants incl. text columns whose coercion CREATES
 duplicates, narrow ints / float32 / nullable dtypes) on all frames of <= 2 rows; non-frames and the
 empty frame. Oracle: an independent predicate written from the five documented conditions, evaluated
@@ -17,17 +17,20 @@ import pandas as pd
 
 TITLE = 'input screening exact'
 EXPLORER = 'E1'
-CLAUSES = ['C15.raises_iff', 'C15.accepted', 'C15.refused', 'C15.normalised', 'C15.arg_untouched', 'C15.idempotent_no_warn',
+MSA_ROWS = [(c, dt, h, t) for c in ('a', 'b') for dt in (-1.0, 0.0) for h in (None, 100.0, 300.0) for t in (-1, 0, 1, 2)]
+CLAUSES = ['C15.chunk_ctor_msa', 'C15.raises_iff', 'C15.accepted', 'C15.refused', 'C15.normalised', 'C15.arg_untouched', 'C15.idempotent_no_warn',
            'C15.coincident_other_ceilo_ok', 'C15.dup_after_coercion', 'C15.missing_column', 'C15.non_frame', 'C15.chunk_ctor']
 RULE = ('every frame of 1..3 rows over a 32-row alphabet (33 824 frames) in plain layout; every frame of 1..2 rows (1 056) x 14 layout '
-        'variants; 8 non-frame / empty inputs. An execution = one check_data_consistency call (plus CeiloChunk construction for <= 2 '
+        'variants; every frame of 1..2 rows over a 48-row alphabet (three heights) constructed under an MSA below / between the heights; '
+        '8 non-frame / empty inputs. An execution = one check_data_consistency call (plus CeiloChunk construction for <= 2 '
         'rows). distinct_nontrivial = distinct (verdict, reason, layout) classes x frame digests of accepted frames')
 ASSUMPTIONS = ['frames whose columns cannot be coerced to the required dtypes are outside the property',
                'required dtypes: ceilo = pandas StringDtype, dt/height = float64, type = int64']
 
 ROWS = [(c, dt, h, t) for c in ('a', 'b') for dt in (-1.0, 0.0) for h in (None, 100.0) for t in (-1, 0, 1, 2)]
 REQ = ['ceilo', 'dt', 'height', 'type']
-VARIANTS = ['plain', 'drop:ceilo', 'drop:dt', 'drop:height', 'drop:type', 'extra_const', 'extra_differs', 'ceilo_object', 'dt_text',
+VARIANTS = ['plain', 'drop:ceilo', 'drop:dt', 'drop:height', 'drop:type', 'rename:ceilo', 'rename:dt', 'rename:height', 'rename:type',
+            'dropadd_last:ceilo', 'dropadd_last:dt', 'dropadd_last:height', 'extra_const', 'extra_differs', 'ceilo_object', 'dt_text',
             'dt_int', 'type_float', 'type_int8', 'f32', 'nullable', 'colorder', 'dupindex', 'concatindex', 'negzero']
 
 
@@ -44,6 +47,8 @@ def cases(tier):
         if tier != 'quick':
             out.append({'first': i, 'maxlen': 3, 'variants': ['extra_differs', 'dt_text', 'f32', 'nullable', 'drop:type', 'colorder']})
             out.append({'first': i, 'maxlen': 3, 'variants': ['dupindex', 'concatindex', 'negzero']})
+    # chunk construction under an MSA (the crop rewrites and drops hits AFTER the screening): all frames of <= 2 rows over three heights
+    out += [{'msa_ctor': i} for i in range(len(MSA_ROWS))]
     out.append({'nonframes': True})
     return out
 
@@ -51,6 +56,8 @@ def cases(tier):
 def weight(case):
     if 'nonframes' in case:
         return 1
+    if 'msa_ctor' in case:
+        return 2 * len(MSA_ROWS)
     return (32 ** (case['maxlen'] - 1)) * len(case['variants'])
 
 
@@ -64,6 +71,12 @@ def make(rows, variant):
         return df
     if variant.startswith('drop:'):
         return df.drop(columns=[variant[5:]])
+    if variant.startswith('rename:'):          # still four columns with the required dtypes at the same positions, one under another name
+        return df.rename(columns={variant[7:]: {'ceilo': 'Ceilo', 'dt': 'time', 'height': 'alt', 'type': 'hit_type'}[variant[7:]]})
+    if variant.startswith('dropadd_last:'):    # a required column dropped, a foreign column of the same dtype appended: four columns again
+        col = variant[13:]
+        df['quality'] = df[col]
+        return df.drop(columns=[col])
     if variant == 'extra_const':
         df['station'] = 'GVA'
         return df
@@ -110,7 +123,7 @@ def make(rows, variant):
 
 def predicate(rows, variant):
     """Independent statement of the five documented refusal conditions -> reason or None."""
-    if variant.startswith('drop:'):
+    if variant.startswith(('drop:', 'rename:', 'dropadd_last:')):
         return 'missing_column'
     if not rows:
         return 'empty'
@@ -147,6 +160,44 @@ def _col_eq(x, y):
         elif u != v:
             return False
     return True
+
+
+def run_msa_ctor(case, res, hit):
+    """CeiloChunk(frame, MSA) refuses exactly the frames the screening refuses: with MSA+buffer at 50 or 200 ft the hits at 100 / 300 ft are
+    rewritten to non-detections or dropped after the screening, which must never turn a legal frame into a refused one."""
+    import copy
+    from ampycloud.data import CeiloChunk
+    from ampycloud.errors import AmpycloudError
+    first = MSA_ROWS[case['msa_ctor']]
+    frames = [[first]] + [[first, r] for r in MSA_ROWS]
+    if 'only_frames' in case:
+        frames = [[MSA_ROWS[i] for i in f] for f in case['only_frames']]
+    for rows in frames:
+        reason = predicate(rows, 'plain')
+        for msa in (50.0, 200.0):
+            df = make(rows, 'plain')
+            pristine = copy.deepcopy(df)
+            res['n'] += 1
+            hit('C15.chunk_ctor_msa')
+            try:
+                with warnings.catch_warnings():
+                    warnings.simplefilter('ignore')
+                    CeiloChunk(df, prms={'MSA': msa, 'MSA_HIT_BUFFER': 0.0})
+                cexc = None
+            except Exception as e:
+                cexc = e
+            sub = {'msa_ctor': case['msa_ctor'], 'only_frames': [[MSA_ROWS.index(tuple(r)) for r in rows]]}
+            if (reason is not None) != isinstance(cexc, AmpycloudError) or (cexc is not None and not isinstance(cexc, AmpycloudError)):
+                if len(res['violations']) < 25:
+                    res['violations'].append({'clause': 'C15.chunk_ctor_msa', 'site': 'CeiloChunk.__init__',
+                                              'detail': {'rows': rows, 'MSA': msa, 'expected': reason or 'accepted',
+                                                         'constructor': 'accepted' if cexc is None else repr(cexc)[:200]}, 'sub': sub})
+            if not same_frame(df, pristine) and len(res['violations']) < 25:
+                res['violations'].append({'clause': 'C15.arg_untouched', 'site': 'CeiloChunk.__init__', 'detail': {'rows': rows, 'MSA': msa}, 'sub': sub})
+            res['digests'].add('msa|%s|%s' % (msa, reason))
+    res['digests'] = sorted(res['digests'])
+    res['sample'] = {'msa_ctor_first_row': list(first), 'frames': len(frames)}
+    return res
 
 
 def run_case(case):
@@ -186,6 +237,8 @@ def run_case(case):
         res['digests'] = []
         return res
 
+    if 'msa_ctor' in case:
+        return run_msa_ctor(case, res, hit)
     if 'frames' in case:
         frames = [[ROWS[i] for i in f] for f in case['frames']]
     else:
